@@ -6466,6 +6466,7 @@ func (p *parser) parseClassExpr(decorators []js_ast.Decorator) js_ast.Expr {
 			if p.fnOrArrowDataParse.await != allowIdent && nameText == "await" {
 				p.log.AddError(&p.tracker, p.lexer.Range(), "Cannot use \"await\" as an identifier here:")
 			}
+			p.checkForUnrepresentableIdentifier(p.lexer.Loc(), nameText)
 			name = &ast.LocRef{Loc: p.lexer.Loc(), Ref: p.newSymbol(ast.SymbolOther, nameText)}
 			p.lexer.Next()
 		}
@@ -10658,6 +10659,7 @@ func (p *parser) visitAndAppendStmt(stmts []js_ast.Stmt, stmt js_ast.Stmt) []js_
 		if js_lexer.StrictModeReservedWords[name] {
 			p.markStrictModeFeature(reservedWord, js_lexer.RangeOfIdentifier(p.source, s.Name.Loc), name)
 		}
+		p.checkForUnrepresentableIdentifier(s.Name.Loc, name)
 		ref := p.newSymbol(ast.SymbolLabel, name)
 		s.Name.Ref = ref
 
